@@ -32,6 +32,17 @@ ws=[
              pk("ca","p2","1",["a1"],[["any",[["use",False,"f2",["L1"]]]],"L2"]),
              pk("ca","p3","1",["a1"],[["any",[["use",False,"f2",["L1"]],"L3"]]])],
        nodes=[node(ak=["a1"],use=["f1"],al=["L2","L3"])],user_plic=[["ca/p1",["L4","-L3","*","-L2"]],["*/*",[]]]),
+
+ # wildcard rules against negated / testing-only / stable-only KEYWORDS, with a profile package.keywords addition
+ world(pkgs=[pk("ca","p1","1",["-*","~b2"],[]),pk("ca","p2","1",["-a1"],[]),pk("ca","p3","1",["~b2"],[]),pk("cb","p1","1",["b2"],[]),pk("cb","p2","1",["-*"],[])],
+       user_ak=["*"],nodes=[node(ak=["a1"],use=[],pkw=[["cb/p2",["~b2"]]])]),
+ world(pkgs=[pk("ca","p1","1",["-*","~b2"],[]),pk("ca","p2","1",["-a1"],[]),pk("ca","p3","1",["~b2"],[]),pk("cb","p1","1",["b2"],[]),pk("cb","p2","1",["-*"],[])],
+       user_pak=[["*/*",["~*"]]],nodes=[node(ak=["a1"],use=[],pkw=[["cb/p2",["~b2"]],["cb/p1",["a1"]]])]),
+ world(pkgs=[pk("ca","p1","1",["-*","b2"],[]),pk("ca","p2","1",["-a1"],[]),pk("cb","p2","1",["-*"],[])],
+       user_pak=[["ca/*",["**"]],["cb/p2",["*"]]],nodes=[node(ak=["a1"],use=[],pkw=[["cb/p2",["b2"]]])]),
+ # order of ACCEPT_LICENSE and package.license; group negation after a member was added
+ world(pkgs=[pk("ca","p1","1",["a1"],["L1"]),pk("ca","p2","1",["a1"],["L2"]),pk("ca","p3","1",["a1"],[["any",["L3","L1"]]])],
+       groups={"G1":["L1","L3"]},user_al=["L3","-*"],user_plic=[["ca/p1",["L1"]],["ca/p2",["@G1","L2","-@G1"]],["ca/p3",["@G1","-@G1"]]]),
 ]
 json.dump(ws,open("/verif/corpus/C13/seed.json","w"),indent=0)
 print(len(ws))
